@@ -257,6 +257,7 @@ def check(spec, ctx):
             from polyply.src.build_system import BuildSystem
             bs = BuildSystem.__new__(BuildSystem)
             bs.topology = None
+            bs.ignore = []
             bs.box = BOX
             bs.box_grid = np.array([[15.0, 15.0, 15.0], [10.0, 20.0, 12.0], [22.0, 8.0, 18.0], [8.0, 9.0, 25.0]])
             bs.maxiter = spec["maxiter_mol"] + 40
